@@ -308,7 +308,22 @@ def _filter_rule(R, sm, hdr):
                     val = None
                     if d and d[1] is not None:
                         val = lib.term_const(c, cb._trace_rv(cb.blocks[d[0]]["s"][d[1]]["r"], None, 0))
-                    rows.append((tuple(x_.replace("param%d" % ei, "elem") for x_ in cond_desc(cb, conds)), val))
+                    cs_ = tuple(x_.replace("param%d" % ei, "elem") for x_ in cond_desc(cb, conds))
+                    if val is None and d:
+                        # the answer is a comparison `x.status == OmahaStatus::Ok` (what `is_some_and(|u| u.status == Ok)` leaves)
+                        if d[1] is None:
+                            tt_ = cb.blocks[d[0]]["t"]
+                            tm_ = ("call", tt_.get("callee") or "", [cb.trace_op(a_) for a_ in tt_.get("args", [])]) if tt_.get("k") == "call" else ("undef",)
+                        else:
+                            tm_ = strip(cb._trace_rv(cb.blocks[d[0]]["s"][d[1]]["r"], None, 0))
+                        if tm_[0] == "call" and lib.norm(tm_[1]) in ("std::cmp::PartialEq::eq",) and len(tm_[2]) == 2:
+                            lhs_ = lib.apath(strip(tm_[2][0])).replace("param%d" % ei, "elem")
+                            rhs_ = fmt_t(strip(tm_[2][1]))
+                            if lhs_.endswith(".status") and rhs_.rstrip("{}").endswith("OmahaStatus::Ok"):
+                                rows.append((cs_ + (lhs_.replace("as_ref(", "").replace(")", "") + "=Ok",), 1))
+                                rows.append((cs_ + (lhs_.replace("as_ref(", "").replace(")", "") + "=!Ok",), 0))
+                                continue
+                    rows.append((cs_, val))
                 true_rows = [r for r in rows if r[1] == 1]
                 det = str(true_rows)
                 ok = len(true_rows) == 1 and true_rows[0][0] == ("elem.update_check=Some", "elem.update_check@Some.0.status=Ok") and all(r[1] in (0, 1) for r in rows)
